@@ -160,7 +160,7 @@ def check(ctx, report):
     report.floor('C05.R2', 2, 'date formatting sites')
 
 
-def scsv_tabulation(ctx, report, c, p, q):
+def scsv_tabulation(ctx, report, c, p, q, RULE='C05.R3'):
     """TlsHandshakeClientHello._parse and .compose evaluated (sa.miniexec) with model parsers / composers for every cipher
     suite sequence of length <= 3 over two ordinary suites and the two signalling values: the parser keeps the ordinary
     suites in order and turns each signalling value into its flag (and only that), the composer writes the ordinary suites
@@ -222,6 +222,11 @@ def scsv_tabulation(ctx, report, c, p, q):
                         kw.update(ev.ev(k.value))
                 got = dict(zip(fields, args))
                 got.update(kw)
+                # arguments the parser does not pass take the defaults of the class (a flag that defaults to True is set unless
+                # the parser says otherwise)
+                for fld in c.attrs_fields():
+                    if fld.name not in got and isinstance(fld.default_node, ast.Constant):
+                        got[fld.name] = fld.default_node.value
                 box['obj'] = got
                 return ('object',)
             if d == 'TlsExtensionsClient':
@@ -283,40 +288,40 @@ def scsv_tabulation(ctx, report, c, p, q):
     try:
         for n in range(0, 4):
             for seq in itertools.product((A, B, FB, RN), repeat=n):
-                report.count('C05.R3')
+                report.count(RULE)
                 obj = run_parse(seq)
                 want = [x for x in seq if x not in (FB, RN)]
                 if obj is None:
-                    report.add('C05.R3', p.construct + '@fold[object]', 'no client hello object is constructed for the suites %s' % [hex(x) for x in seq])
+                    report.add(RULE, p.construct + '@fold[object]', 'no client hello object is constructed for the suites %s' % [hex(x) for x in seq])
                     return True
                 got = [getattr(x, 'code', None) for x in list(obj.get('cipher_suites', []))]
                 for marker, flag, code in (('FALLBACK_SCSV', 'fallback_scsv', FB), ('EMPTY_RENEGOTIATION_INFO_SCSV', 'empty_renegotiation_info_scsv', RN)):
                     if bool(obj.get(flag)) != (code in seq):
-                        report.add('C05.R3', p.construct + '@fold[%s]' % marker, 'suites %s: the parser sets %s=%s, expected %s' % ([hex(x) for x in seq], flag, obj.get(flag), code in seq))
+                        report.add(RULE, p.construct + '@fold[%s]' % marker, 'suites %s: the parser sets %s=%s, expected %s' % ([hex(x) for x in seq], flag, obj.get(flag), code in seq))
                         return True
                     if code in got:
-                        report.add('C05.R3', p.construct + '@fold[%s]' % marker, '%s is folded into the flag and also kept in the list: every parse/compose cycle duplicates it' % marker)
+                        report.add(RULE, p.construct + '@fold[%s]' % marker, '%s is folded into the flag and also kept in the list: every parse/compose cycle duplicates it' % marker)
                         return True
                 if got != want:
-                    report.add('C05.R3', p.construct + '@fold[else]', 'suites %s: the parser keeps %s, expected the ordinary suites %s in order' % (
+                    report.add(RULE, p.construct + '@fold[else]', 'suites %s: the parser keeps %s, expected the ordinary suites %s in order' % (
                         [hex(x) for x in seq], [hex(x) if isinstance(x, int) else x for x in got], [hex(x) for x in want]))
                     return True
         for seq in ((), (A,), (A, B), (B, A, A)):
             for fb, rn in itertools.product((False, True), repeat=2):
-                report.count('C05.R3')
+                report.count(RULE)
                 out = run_compose(seq, fb, rn)
                 for marker, flag, code, on in (('FALLBACK_SCSV', 'fallback_scsv', FB, fb), ('EMPTY_RENEGOTIATION_INFO_SCSV', 'empty_renegotiation_info_scsv', RN, rn)):
                     if (out.count(code) == 1) != on or out.count(code) > 1:
-                        report.add('C05.R3', q.construct + '@unfold[%s]' % marker, 'compose does not emit %s exactly when self.%s is set (suites %s, flag %s: written %s)' % (
+                        report.add(RULE, q.construct + '@unfold[%s]' % marker, 'compose does not emit %s exactly when self.%s is set (suites %s, flag %s: written %s)' % (
                             marker, flag, [hex(x) for x in seq], on, [hex(x) if isinstance(x, int) else x for x in out]))
                         return True
                 if [x for x in out if x not in (FB, RN)] != list(seq):
-                    report.add('C05.R3', q.construct + '@unfold[suites]', 'compose writes %s for the suites %s' % ([hex(x) if isinstance(x, int) else x for x in out], [hex(x) for x in seq]))
+                    report.add(RULE, q.construct + '@unfold[suites]', 'compose writes %s for the suites %s' % ([hex(x) if isinstance(x, int) else x for x in out], [hex(x) for x in seq]))
                     return True
     except (Unsupported, Raised) as e:
-        report.sample({'rule': 'C05.R3', 'tabulation': 'not applicable (%s): the fold is read off the loop instead' % str(e)[:80]})
+        report.sample({'rule': RULE, 'tabulation': 'not applicable (%s): the fold is read off the loop instead' % str(e)[:80]})
         return False
-    report.sample({'rule': 'C05.R3', 'tabulated': '85 suite sequences through _parse, 16 objects through compose'})
+    report.sample({'rule': RULE, 'tabulated': '85 suite sequences through _parse, 16 objects through compose'})
     return True
 
 
